@@ -2,7 +2,7 @@
 from common import Scenario
 
 NAMESPACES = ["-", "-", "a", "/a", "a/b", "/a/"]
-KEYS = ["k", "j", "b/k", "/a/k", "/z", "/a/b/j"]
+KEYS = ["k", "j", "b/k", "/a/k", "/z", "/a/b/j", "/a", "b"]      # "/a" and "b" are keys AND namespaces of other keys
 LOCS = ["/L", "/a/k", "/shared", "/z"]
 VALS = ["i:0", "i:1", "i:2", "b:1", "b:0", "n", "t:x", "t:y", "o{p=i:1}", "o{p=i:2,q=o{r=t:z}}", "o{q=o{r=i:0}}",
         "o{q=o{r=o{u=i:5}}}"]
@@ -72,6 +72,9 @@ class BbGen(object):
 
     def name_for(self, c):
         k = self.key_for(c)
+        a = absname(self.ns[c], k)
+        if any(x.startswith(a + "/") for x in self.attempts[c]) or a in ("/a", "/a/b", "/b"):
+            return k      # a name that can be a namespace: no attribute path (a path into a namespace fetcher is not modelled)
         if self.rng.random() < 0.4:
             return k + "." + self.rng.choice(PATHS)
         return k
@@ -80,6 +83,12 @@ class BbGen(object):
         # namespaced dotted access: pick a registered key with at least one namespace component below the client's
         ns = self.ns[c] if self.ns[c].endswith("/") else self.ns[c] + "/"
         cands = [k for k in self.attempts[c] if k.startswith(ns) and "/" in k[len(ns):]]
+        # a prefix that is itself a key of this client is read as that key's value, not as a namespace: the dotted
+        # path would then continue into the stored object (outside the key-name algebra) - not generated
+        def clash(k):
+            parts = k[len(ns):].split("/")
+            return any((ns + "/".join(parts[:i])) in self.attempts[c] for i in range(1, len(parts)))
+        cands = [k for k in cands if not clash(k)]
         if not cands:
             return None
         k = self.rng.choice(cands)
